@@ -226,7 +226,8 @@ def run(ctx: Ctx) -> None:
             kinds = {origin(n_) for n_ in dr | de}
             # the evaluation and RawResults must see the same definition(s) of the point; a definition made in between, or one that is another point
             # than the result of the optimisation, is the contradiction; a point computed from the result in a way the rule does not read leaves it open
-            oks = True if (dr == de and kinds == {'same'}) else (None if (dr == de and dr and 'other' not in kinds) else False)
+            # (all definitions being the same point is enough: `x = cast(T, x)` between the evaluation and RawResults re-binds the value it had)
+            oks = True if (dr and de and kinds == {'same'}) else (None if (dr and de and 'other' not in kinds) else False)
             other = sorted(getattr(cfg.stmt.get(n), 'lineno', 0) for n in (dr | de) if origin(n) != 'same')
             ctx.add('C07.R2', f'BIOGEME.{mname}:same-point', oks, (e.file, rr[0].lineno),
                     f'the {xstar} handed to RawResults is the {xstar} of the final evaluation (defined once, by the main optimisation)' if oks
